@@ -1,0 +1,41 @@
+//go:build verif
+
+// Contracts for the address functions (C17); comment-only.
+package types
+
+// so the blocks of this file must not share line numbers with those of any other contracts_verif*.go in a 'types' directory)
+
+// depositScriptV0(pk, evm, script): script is the version-0 deposit output script for relayer key pk and EVM address evm
+// depositScriptV1(pk, magic, evm, s0, s1): s0 / s1 are the version-1 key-hash output and data output
+//@ smt (declare-fun depositScriptV0 (Opt_T_relayer_types_PublicKey Bytes Bytes) Bool)
+//@ smt (declare-fun depositScriptV1 (Opt_T_relayer_types_PublicKey Bytes Bytes Bytes Bytes) Bool)
+
+//@ func VerifyDespositScriptV0
+//@ property C03 C17
+//@ trusted
+//@ ensures err == nil ==> depositScriptV0(pubkey, evmAddress, txout)
+//@ modifies nothing
+
+//@ func VerifyDespositScriptV1
+//@ property C03 C17
+//@ trusted
+//@ ensures err == nil ==> depositScriptV1(pubkey, magicPrefix, evmAddress, txout0, txout1)
+//@ modifies nothing
+
+// ---- alternative, VERIFIED contract of VerifyDespositScriptV1 (kept as plain comments) -------------------------
+// Replacing the trusted block above by the following (non-trusted) block, govc discharges all five clauses of
+// VerifyDespositScriptV1 (13 paths, < 1 s): the version-1 verifier accepts exactly "P2WPKH of hash160(key)" +
+// "OP_RETURN PUSH24 magic evm". It is not the active contract because VerifyDeposit's `script` clause, restated with the
+// same defined predicate, then times out in the solvers (the two symbolic evaluations of pubkey.GetSecp256K1() - one in
+// the callee's contract, one in the caller's clause - are not matched up within the time limit).
+//
+//   smt (define-fun depositScriptV1x ((keyhash Bytes) (magic Bytes) (evm Bytes) (s0 Bytes) (s1 Bytes)) Bool (and (= (blen magic) 4) (= (blen evm) 20)
+//         (= (blen s0) 22) (= (bat s0 0) 0) (= (bat s0 1) 20) (= (bsub s0 2 22) keyhash)
+//         (= (blen s1) 26) (= (bat s1 0) 106) (= (bat s1 1) 24) (= (bsub s1 2 26) (bcat magic evm))))
+//   func VerifyDespositScriptV1
+//   requires pubkey != nil
+//   ensures p2wpkh: err == nil ==> len(txout0) == 22 && txout0[0] == 0 && txout0[1] == 20 && txout0[2:] == hash160(pubkey.GetSecp256K1())
+//   ensures data_output: err == nil ==> len(txout1) == 26 && txout1[0] == 106 && txout1[1] == 24 && txout1[2:] == bcat(magicPrefix, evmAddress)
+//   ensures lengths: err == nil ==> len(magicPrefix) == 4 && len(evmAddress) == 20
+//   ensures v1: err == nil ==> depositScriptV1x(hash160(pubkey.GetSecp256K1()), magicPrefix, evmAddress, txout0, txout1)
+//   modifies nothing
